@@ -124,7 +124,10 @@ pub(crate) enum SessionMessage {
 /// The node session's state
 pub(crate) struct SessionState {
     writer_tx: tokio::sync::mpsc::UnboundedSender<crate::protocol::NetworkMessage>,
+    #[cfg(not(feature = "verif_hooks"))]
     writer_task: tokio::task::JoinHandle<()>,
+    #[cfg(feature = "verif_hooks")]
+    writer_task: ractor::concurrency::JoinHandle<()>,
     reader: ActorRef<SessionReaderMessage>,
 }
 
@@ -168,7 +171,11 @@ impl Actor for Session {
         // This eliminates one actor hop and enables write coalescing.
         let (writer_tx, writer_rx) = tokio::sync::mpsc::unbounded_channel();
         let session_ref = myself.clone();
+        #[cfg(not(feature = "verif_hooks"))]
         let writer_task = tokio::task::spawn(run_write_task(write, writer_rx, session_ref));
+        #[cfg(feature = "verif_hooks")]
+        let writer_task =
+            ractor::concurrency::spawn(run_write_task(write, writer_rx, session_ref));
 
         let (reader, _) = Actor::spawn_linked(
             None,
@@ -421,6 +428,36 @@ async fn read_network_message(
 
 struct SessionReaderState {
     reader: Option<ActorReadHalf>,
+}
+
+/// verif: the frame reader over an arbitrary byte stream (the code the session reader runs)
+#[cfg(feature = "verif_hooks")]
+pub struct VerifFrameReader(ActorReadHalf);
+
+#[cfg(feature = "verif_hooks")]
+impl std::fmt::Debug for VerifFrameReader {
+    fn fmt(&self, f: &mut std::fmt::Formatter<'_>) -> std::fmt::Result {
+        write!(f, "VerifFrameReader")
+    }
+}
+
+#[cfg(feature = "verif_hooks")]
+impl VerifFrameReader {
+    /// wrap a byte stream
+    pub fn new(reader: super::BoxRead) -> Self {
+        Self(ActorReadHalf::External(reader))
+    }
+    /// read one frame with the given inbound limit
+    pub async fn read(
+        &mut self,
+        max_frame_size: u64,
+    ) -> tokio::io::Result<crate::protocol::NetworkMessage> {
+        read_network_message(&mut self.0, max_frame_size).await
+    }
+    /// the encoder used by the writer task
+    pub fn encode(msg: &crate::protocol::NetworkMessage, buf: &mut Vec<u8>) {
+        encode_network_message(msg, buf)
+    }
 }
 
 #[cfg_attr(feature = "async-trait", ractor::async_trait)]
